@@ -2436,7 +2436,7 @@ func (c *streamableClientConn) Write(ctx context.Context, msg jsonrpc.Message) e
 	contentType := baseMediaType(resp.Header.Get("Content-Type"))
 	switch contentType {
 	case "application/json":
-		go c.handleJSON(requestSummary, resp)
+		go c.handleJSON(ctx, requestSummary, resp)
 
 	case "text/event-stream":
 		var forCall *jsonrpc.Request
@@ -2517,10 +2517,17 @@ func protocolVersionFromMessage(msg jsonrpc.Message) string {
 	return v
 }
 
-func (c *streamableClientConn) handleJSON(requestSummary string, resp *http.Response) {
+func (c *streamableClientConn) handleJSON(ctx context.Context, requestSummary string, resp *http.Response) {
 	body, err := io.ReadAll(resp.Body)
 	resp.Body.Close()
 	if err != nil {
+		// ctx comes from the call: if the caller cancelled it while the body
+		// was still in flight, the interrupted read says nothing about the
+		// health of the session, and the response has no one waiting for it
+		// (as for an SSE response, see processStream).
+		if ctx.Err() != nil {
+			return
+		}
 		c.fail(fmt.Errorf("%s: failed to read body: %v", requestSummary, err))
 		return
 	}
